@@ -2086,14 +2086,19 @@ def drop_dead_pure_stores(tree: ast.Module) -> None:
 
 
 def distinct_loop_lines(tree: ast.Module) -> None:
-    """The path effects name a loop by its line.  Loops that the normal form created from one source line (an inlined generator pipeline) get
-    distinct synthetic line numbers (original + k * 100000), so that 'leaving the inner loop' and 'leaving the outer loop' stay different."""
-    for fn in [n for n in ast.walk(tree) if isinstance(n, (ast.FunctionDef, ast.AsyncFunctionDef))]:
-        seen: Dict[int, int] = {}
-        for n in ast.walk(fn):
-            if isinstance(n, (ast.For, ast.While, ast.AsyncFor)):
-                ln = getattr(n, "lineno", 0)
-                k = seen.get(ln, 0)
-                seen[ln] = k + 1
+    """The path effects name a loop by its line.  A loop nested in a loop of the same line (both created by the normal form from one source
+    line - an inlined generator pipeline) gets a synthetic line number (original + k * 7000000), so that 'leaving the inner loop' and 'leaving
+    the outer loop' stay different.  Copies of one loop in sibling branches keep their common line: they are the same loop of the source."""
+    def visit(node: ast.AST, enclosing: List[int]) -> None:
+        for c in ast.iter_child_nodes(node):
+            if isinstance(c, (ast.For, ast.While, ast.AsyncFor)):
+                ln = getattr(c, "lineno", 0)
+                k = sum(1 for x in enclosing if x % 7000000 == ln % 7000000)
                 if k:
-                    n.lineno = ln + 7000000 * k
+                    c.lineno = ln % 7000000 + 7000000 * k
+                visit(c, enclosing + [c.lineno])
+            elif isinstance(c, (ast.FunctionDef, ast.AsyncFunctionDef, ast.Lambda)):
+                visit(c, [])
+            else:
+                visit(c, enclosing)
+    visit(tree, [])
